@@ -7,7 +7,7 @@ transliteration of binutils' ELF_SECTION_IN_SEGMENT_STRICT against /usr/bin/read
 import io, os, re, subprocess, tempfile, zlib
 from tools.lib.framework import impl_call, VERIF
 
-CLAIMED = False
+CLAIMED = True
 CONFIG = {
     'assumptions': [
         'stream = io.BytesIO over the synthesized image (seek/read semantics of BytesIO)',
